@@ -139,6 +139,13 @@ func (r *Run) Break(format string, a ...interface{}) {
 	r.Broken = append(r.Broken, fmt.Sprintf(format, a...))
 }
 
+// SetExtra records an additional coverage key (safe for concurrent use).
+func (r *Run) SetExtra(k string, v interface{}) {
+	r.mu.Lock()
+	r.Extra[k] = v
+	r.mu.Unlock()
+}
+
 // Explore runs an exhaustive TLC configuration and records its statistics.
 // A counterexample on the model alone is machinery failure (exit 2), never a
 // violation: verdicts come from the real code only.
@@ -167,7 +174,7 @@ func (r *Run) Explore(o TLCOpts) *TLCResult {
 	}
 	if o.Coverage && len(res.ZeroCov) > 0 {
 		// actions never taken => vacuity
-		r.Extra["zero_coverage_"+o.Config] = res.ZeroCov
+		r.SetExtra("zero_coverage_"+o.Config, res.ZeroCov)
 	}
 	return res
 }
